@@ -341,10 +341,13 @@ class Signal(np.lib.mixins.NDArrayOperatorsMixin):
         Dask's configuration. ``kwargs`` are passed along to
         :py:func:`dask.array.rechunk`.
         """
-        if chunks is None:
-            chunks = (-1,) + ("auto",) * (self.ndim - 1)
-
         x = dask.array.asanyarray(self.data)
+
+        if chunks is None:
+            # dask cannot resolve "auto" chunks for an array of zero size
+            auto = "auto" if x.size else -1
+            chunks = (-1,) + (auto,) * (self.ndim - 1)
+
         return type(self).like(self, x.rechunk(chunks, **kwargs))
 
     @classmethod
